@@ -180,10 +180,44 @@ NumberText(s) ==
   ELSE IF ExprOk(t.toks, 1) THEN [k |-> "tokens", toks |-> t.toks] ELSE Reject
 NumberPieces == { <<48>>, <<49>>, <<53>>, <<95>>, <<46>>, <<101>>, <<69>>, <<101, 43>>, <<101, 45>> }
 
+\* ------------------------------------------------------------------ comments and blanks
+\* Between tokens the lexer skips blanks, `#...` and `//...` up to the end of the line, and `/* ... */` up to the
+\* FIRST `*/` that starts at or after the character following the opening `/*` (so `/*/` is not closed, `/***/`,
+\* `/* a **/` and `/*/ */` are); a block comment without such a `*/` is a lexical error. What is left must be an
+\* expression: here operands `1`.. / identifiers joined by `*` and `/` (left associative).
+RECURSIVE CloseAt(_, _)
+CloseAt(s, j) == IF j + 1 > Len(s) THEN 0 ELSE IF s[j] = 42 /\ s[j + 1] = 47 THEN j ELSE CloseAt(s, j + 1)
+RECURSIVE LineEnd(_, _)
+LineEnd(s, j) == IF j > Len(s) THEN j ELSE IF s[j] = 10 THEN j + 1 ELSE LineEnd(s, j + 1)
+RECURSIVE CTokens(_, _, _)
+CTokens(s, i, acc) ==
+  IF i > Len(s) THEN [ok |-> TRUE, toks |-> acc]
+  ELSE LET c == s[i] IN
+       IF c \in {32, 10} THEN CTokens(s, i + 1, acc)
+       ELSE IF c = 35 THEN CTokens(s, LineEnd(s, i + 1), acc)
+       ELSE IF c = 47 /\ i + 1 <= Len(s) /\ s[i + 1] = 47 THEN CTokens(s, LineEnd(s, i + 2), acc)
+       ELSE IF c = 47 /\ i + 1 <= Len(s) /\ s[i + 1] = 42
+            THEN LET k == CloseAt(s, i + 2) IN
+                 IF k = 0 THEN [ok |-> FALSE, toks |-> <<>>] ELSE CTokens(s, k + 2, acc)
+       ELSE IF IsDigit(c) THEN LET j == DigitRun(s, i) IN CTokens(s, j, Append(acc, [k |-> "num", a |-> i, b |-> j]))
+       ELSE IF IsIdStart(c) THEN LET j == IdEnd(s, i) IN CTokens(s, j, Append(acc, [k |-> "id", a |-> i, b |-> j]))
+       ELSE IF c \in {42, 47} THEN CTokens(s, i + 1, Append(acc, [k |-> "op", a |-> i, b |-> i + 1]))
+       ELSE [ok |-> FALSE, toks |-> <<>>]
+RECURSIVE MulChain(_, _)
+MulChain(toks, i) ==
+  IF i > Len(toks) \/ toks[i].k \notin {"num", "id"} THEN FALSE
+  ELSE IF i = Len(toks) THEN TRUE
+  ELSE IF toks[i + 1].k = "op" THEN MulChain(toks, i + 2) ELSE FALSE
+CommentText(s) ==
+  LET t == CTokens(s, 1, <<>>) IN
+  IF ~t.ok \/ t.toks = <<>> THEN Reject
+  ELSE IF MulChain(t.toks, 1) THEN [k |-> "tokens", toks |-> t.toks] ELSE Reject
+CommentPieces == { <<47>>, <<42>>, <<49>>, <<97>>, <<32>>, <<10>>, <<35>> }
+
 \* ------------------------------------------------------------------ enumeration
 Pieces == CASE Family = "dq" -> StringPieces [] Family = "sq" -> StringPieces
             [] Family \in {"vdq", "vsq"} -> VerbatimPieces [] Family = "num" -> NumberPieces
-            [] Family = "block" -> BlockLines
+            [] Family = "block" -> BlockLines [] Family = "comment" -> CommentPieces
 
 VARIABLE st
 Init == st \in {[ps |-> <<p>>] : p \in Pieces}
@@ -197,6 +231,7 @@ Result ==
     [] Family = "vdq" -> DecodeVerbatim(body, 1, 34, <<>>)
     [] Family = "vsq" -> DecodeVerbatim(body, 1, 39, <<>>)
     [] Family = "num" -> NumberText(body)
+    [] Family = "comment" -> CommentText(body)
     [] Family = "block" -> [k |-> "blocks",
                             plain |-> TextBlock(st.ps, FALSE, <<>>), chomp |-> TextBlock(st.ps, TRUE, <<>>),
                             indented_end |-> TextBlock(st.ps, FALSE, <<32>>)]
